@@ -969,7 +969,7 @@ func c12Sequential(run *vfRun, t *testing.T) {
 		if err != nil {
 			t.Fatalf("sequential %s: %v", store, err)
 		}
-		for _, bh := range []string{"rotating", "rotating-noidtoken", "norefreshtoken", "refresh-fails-idtoken-valid", "refresh-fails-idtoken-expired", "norefreshtoken-idtoken-expired"} {
+		for _, bh := range []string{"rotating", "rotating-noidtoken", "rotating-grows", "norefreshtoken", "refresh-fails-idtoken-valid", "refresh-fails-idtoken-expired", "norefreshtoken-idtoken-expired"} {
 			for _, age := range []time.Duration{50 * time.Second, 70 * time.Second, 2 * time.Minute, 30 * time.Minute} {
 				for rep := 0; rep < run.Env.Pick(2, 10); rep++ {
 					w.IdP.Set(func(c *vfIdPCfg) {
@@ -977,6 +977,19 @@ func c12Sequential(run *vfRun, t *testing.T) {
 						c.MintOverride = nil
 						if bh == "rotating-noidtoken" { // provider that rotates refresh tokens but returns no id_token on refresh
 							c.MintOverride = func(grant string, claims map[string]interface{}) (string, bool) { return "", grant == "refresh" }
+						}
+						if bh == "rotating-grows" { // the refreshed ID token is much larger (300 groups): a one-cookie session becomes a split one (round 8)
+							c.MintOverride = func(grant string, claims map[string]interface{}) (string, bool) {
+								if grant != "refresh" {
+									return "", false
+								}
+								var gs []string
+								for g := 0; g < 300; g++ {
+									gs = append(gs, vfRandHex(8))
+								}
+								claims["groups"] = gs
+								return vfMint(claims, vfMintOpts{}), true
+							}
 						}
 					})
 					id := vfIdentity{Sub: "u-seq", Email: "seq@example.com", NoRefreshToken: strings.HasPrefix(bh, "norefreshtoken")}
@@ -1039,7 +1052,7 @@ func c12Sequential(run *vfRun, t *testing.T) {
 						continue
 					}
 					switch bh {
-					case "rotating", "rotating-noidtoken":
+					case "rotating", "rotating-noidtoken", "rotating-grows":
 						if g1-g0 != 1 || r1.Code != 200 {
 							rep2("c12:stale-not-refreshed", "stale session with a refresh token: want one grant and the request served")
 						} else {
